@@ -272,6 +272,43 @@ def run(ctx, replay_case):
                                                   "how": "decode the four inputs in this order in one process"}})
                 break
     shapes["verdict probes A,B',A,B' (decodes)"] = npoison
+    # the result of a decode does not depend on the thread it runs on either: A on the main thread, A on a second thread - events,
+    # object and the object rebuilt (on the main thread) from the other thread's events must compare equal (seed C12k: the memo of
+    # synthesized layouts moved into a threading.local, one class per thread)
+    import threading
+    from tpmstream.common.object import events_to_obj as _e2o
+    from tpmstream.spec.structures.constants import TPM_CC as _CC
+    nthr = 0
+    for a_ in rnd.sample(pool_enc, min(len(pool_enc), 12 if ctx.tier == "quick" else 60)) + rnd.sample(pool_plain, min(len(pool_plain), 4)):
+        box = {}
+
+        def work():
+            try:
+                box["r"] = drain(decode_events(a_))
+            except Exception as e_:  # noqa
+                box["r"] = ("crash", type(e_).__name__)
+        r_main = drain(decode_events(a_))
+        th = threading.Thread(target=work)
+        th.start()
+        th.join()
+        nthr += 1
+        bad = None
+        if box.get("r") != r_main:
+            bad = "the decode on a second thread does not compare equal to the decode on the main thread (" + \
+                  ("events" if box.get("r", (None,))[0] != r_main[0] else "returned object") + ")"
+        else:
+            try:
+                o_ = _e2o(box["r"][0], command_code=_CC(a_[1]) if a_[1] is not None else None)
+                if type(getattr(o_, "parameters", None)) is not type(getattr(r_main[1], "parameters", None)) and getattr(r_main[1], "parameters", None) is not None:
+                    bad = "the parameter area type rebuilt from the events decoded on a second thread is not the type the main thread's decode used"
+            except Exception:  # noqa
+                pass
+        if bad:
+            failures += 1
+            ctx.violations.append({"kind": "concrete", "signature": "history:threads", "what": f"history A (main thread), A (second thread): {bad}",
+                                   "replay": {"history": [(a_[0], a_[1], a_[2], a_[3].hex())] * 2, "shape": "A on the main thread, A on a second thread"}})
+            break
+    shapes["A on two threads (pairs)"] = nthr
     for h in range(nh):
         kind = rnd.choice(["ABA", "ABA", "ABCA", "ABAB", "AxA", "interleaved2", "interleaved3", "stream",
                            "A,failed,A", "A,failed,A", "A,abandoned,A", "S,failed,S"])
